@@ -460,7 +460,7 @@ func drive(d *mon.Driver, replay string) int {
 		total := d.N(3000, 200000)
 		per := 150
 		for from := 0; from < total; from += per {
-			cd := caseData{Batch: eng.Batch{Seed: seed, From: from, N: per, Mix: -1}, Kind: "gen", PartSeed: pseed, Rejects: true}
+			cd := caseData{Batch: eng.Batch{Seed: seed, From: from, N: per, Mix: -1, NoForwardRef: true}, Kind: "gen", PartSeed: pseed, Rejects: true}
 			if (from/per)%5 == 4 {
 				cd.D20 = true
 			}
